@@ -1,3 +1,4 @@
+import os
 import re
 import warnings
 from typing import Any, Dict, Optional, Set
@@ -9,6 +10,26 @@ from .exceptions import KeyNotFoundError
 from .types import Evaluatable, Options, Value
 
 TEMPLATE_PARAM = re.compile(r"^:[a-zA-Z_][a-zA-Z0-9_]*:$")
+
+
+_ENVIRONMENT = "@env"
+
+
+def _with_environment(key: str, options: Options) -> Options:
+    """The options a reference is resolved against: '{@env.HOME}' reads the process
+    environment (see confectioner.templating.resolve), not the options."""
+    if key == _ENVIRONMENT or key.startswith(f"{_ENVIRONMENT}."):
+        return {**options, _ENVIRONMENT: dict(os.environ)}
+    return options
+
+
+def _without_environment(keys: Set[str]) -> Set[str]:
+    """Environment variables are not option keys."""
+    return {
+        key
+        for key in keys
+        if key != _ENVIRONMENT and not key.startswith(f"{_ENVIRONMENT}.")
+    }
 
 
 class Template(Evaluatable[str]):
@@ -98,7 +119,7 @@ class Template(Evaluatable[str]):
             if TEMPLATE_PARAM.match(key):
                 continue
             try:
-                Option(key).validate(options)
+                Option(key).validate(_with_environment(key, options))
             except KeyNotFoundError as e:
                 raise KeyNotFoundError(e.key, self) from e
 
@@ -111,11 +132,11 @@ class Template(Evaluatable[str]):
             if TEMPLATE_PARAM.match(key):
                 continue
             try:
-                keys.update(Option(key).keys(options))
+                keys.update(Option(key).keys(_with_environment(key, options)))
             except KeyNotFoundError as e:
                 raise KeyNotFoundError(e.key, self) from e
 
-        return keys
+        return _without_environment(keys)
 
     def explain(self, options: Optional[Options] = None) -> Set[str]:
         """Returns the keys that this object depends on."""
@@ -127,9 +148,9 @@ class Template(Evaluatable[str]):
             if TEMPLATE_PARAM.match(key):
                 continue
 
-            keys.update(Option(key).explain(options))
+            keys.update(Option(key).explain(_with_environment(key, options)))
 
-        return keys
+        return _without_environment(keys)
 
     def __repr__(self) -> str:
         if self.params:
